@@ -19,7 +19,14 @@ class C02(Prop):
     design_ref = "DESIGN.md §6 C02"
     # translator tie (DESIGN II.7): src/scheduler.rs itself — TaskHandle's two Subscription impls and the poll functions of
     # Remote / OnceTask / FutureTask / RepeatTask, regenerated from the compiler-expanded source on every run
-    tie_modules = {"RxModel.GenTie.Scheduler": []}
+    tie_modules = {"RxModel.GenTie.Scheduler": [],
+                   # every task an operator schedules leaves its handle in the composite the subscription tears down, and a late
+                   # handle appended to an unsubscribed composite is cancelled at once: the ties of the operators that schedule
+                   "RxModel.GenTie.Subscription": [], "RxModel.GenTie.Delay": [], "RxModel.GenTie.DelayThreads": [],
+                   "RxModel.GenTie.ObserveOn": [], "RxModel.GenTie.ObserveOnThreads": [], "RxModel.GenTie.Debounce": [],
+                   "RxModel.GenTie.Throttle": [], "RxModel.GenTie.MergeAll": [], "RxModel.GenTie.MergeAllThreads": [],
+                   "RxModel.GenTie.TimeOpsModel": [], "RxModel.GenTie.WiringDelay": [], "RxModel.GenTie.WiringObserveOn": [],
+                   "RxModel.GenTie.WiringDebounce": [], "RxModel.GenTie.WiringThrottle": [], "RxModel.GenTie.WiringBuffer": []}
     rule = ("the C01 case population with `unsub` injected at every position of the event script, followed by "
             "the rest of the script and extra events on every hot input; plus linear chains with every scheduler-using "
             "operator (delay, observe_on, subscribe_on, delay_subscription, debounce, throttle, buffer_with_time, "
